@@ -63,6 +63,14 @@ def check_reinsert(prog: Program, L: Ledger, rule: str) -> None:
     name = l1.target.id
     M.run(l1.body)
     where1 = f"{rel}:{l1.lineno}"
+    # special-case arms (`if <cond>: atoms.arrays[name] = …; continue`): what they store must be a rebuilt array as well —
+    # the index scatter is what undoes the deletion order, a shortcut that takes the removed rows over "as they are" is not
+    for cond_, finals_, line_ in getattr(M, "branch_finals", []):
+        for key_, obj_, vtxt_, fl_ in finals_:
+            ok_ = obj_ is not None and obj_.kind == "array" and any(s_[0] == ("index", p_idx) for s_ in obj_.stores)
+            L.check(ok_, rule, f"reinsert_atoms:special-case[{cond_[:40]}]", f"{rel}:{fl_}",
+                    f"when `{cond_}` the array `{key_}` is set to `{vtxt_[:80]}` without scattering the re-inserted rows under `{p_idx}`: the rows come back in the order they were removed in, not at the indices they were removed from",
+                    f"delete every atom with a non-ascending index list (e.g. {p_idx} = [2, 0, 1]) and re-insert: all per-atom arrays are permuted", vtxt_[:100])
     if len(M.final) != 1 or M.final[0][0] != name:
         L.violation(rule, "reinsert_atoms:result-store", where1, f"one iteration stores {[(k, v) for k, _o, v, _l in M.final]} into {p_atoms}.arrays, not exactly the rebuilt `{name}` array",
                     "the per-atom array is not replaced by the merged one", "final-store")
